@@ -1104,12 +1104,51 @@ pub fn chain_shape_error(qname: &str, qtype: QueryType, rrs: &[ResourceRecord]) 
     None
 }
 
+/// Like `chain_shape_error` but only about how the aliases link up: every
+/// alias starts where the previous one pointed, and the final records sit at
+/// the last target.  Duplicates are not its business.
+pub fn alias_linkage_error(qname: &str, rrs: &[ResourceRecord]) -> Option<String> {
+    let mut expect_owner = qname.to_ascii_lowercase();
+    let mut i = 0;
+    while i < rrs.len() {
+        if let RecordTypeWithData::CNAME { cname } = &rrs[i].rtype_with_data {
+            let owner = rrs[i].name.to_dotted_string().to_ascii_lowercase();
+            if owner != expect_owner {
+                return Some(format!(
+                    "alias {} does not start at {expect_owner}, where the previous one pointed",
+                    show_rr(&rrs[i])
+                ));
+            }
+            expect_owner = cname.to_dotted_string().to_ascii_lowercase();
+            i += 1;
+        } else {
+            break;
+        }
+    }
+    for rr in &rrs[i..] {
+        if matches!(rr.rtype_with_data, RecordTypeWithData::CNAME { .. }) {
+            continue;
+        }
+        let owner = rr.name.to_dotted_string().to_ascii_lowercase();
+        if owner != expect_owner {
+            return Some(format!("{} is not at the end of the alias path ({expect_owner})", show_rr(rr)));
+        }
+    }
+    None
+}
+
 fn gen_c10(seed: u64, _index: u64, tier: Tier) -> ResolvePlan {
     let mut r = Rng::new(seed);
     let mut knobs = random_benign_knobs(&mut r);
     knobs.cache_size = 512;
     knobs.server.shuffle_answers = r.chance(0.3);
     let mode = *r.pick(&["recursive", "recursive", "forwarding", "authoritative"]);
+    // decoy aliases from a byzantine upstream, in recursive mode only (the
+    // forwarder is documented as trusted: its answer is relayed as it is)
+    if mode == "recursive" && r.chance(0.3) {
+        knobs.upstream_fault_kinds = vec!["ans_cname_fan_first".into(), "ans_cname_fan".into(), "ans_offpath_cname".into()];
+        knobs.faults.insert("upstream.fault".into(), *r.pick(&[0.3, 1.0]));
+    }
     if mode == "forwarding" {
         knobs.mode = "forwarding".into();
     }
@@ -1327,7 +1366,8 @@ fn oracle_c10(plan: &ResolvePlan, obs: &Observations) -> RunResult {
                 // an error is acceptable for loops and over-long chains only
                 // (and, without recursion, for a name nothing local knows)
                 let nothing_local = !q.recursive && ref_chain.is_empty();
-                if !cyclic && !nothing_local && ref_chain.len() <= 25 {
+                let byzantine = !plan.knobs.upstream_fault_kinds.is_empty();
+                if !cyclic && !nothing_local && !byzantine && ref_chain.len() <= 25 {
                     let dead = depends_on_dead_delegation(plan, q);
                     res.violations.push(
                         Violation::new("c10.short_chain_failed")
@@ -1392,7 +1432,10 @@ fn oracle_c10(plan: &ResolvePlan, obs: &Observations) -> RunResult {
         if acceptable_cut {
             bump(&mut res.stats, "probe.forwarder_answer_ended_at_locally_known_name");
         }
-        if !cyclic && ref_chain.len() <= 25 && got_links != ref_chain && !acceptable_cut {
+        // (decoy aliases from a byzantine upstream change what the chain is:
+        // then only the shape is judged)
+        let byzantine = !plan.knobs.upstream_fault_kinds.is_empty();
+        if !cyclic && !byzantine && ref_chain.len() <= 25 && got_links != ref_chain && !acceptable_cut {
             res.violations.push(Violation::new("c10.chain_not_whole").detail(json!({
                 "q": qfacts(q), "reference_chain": ref_chain, "got": got_links,
                 "exchanges": exchange_summary(obs, q)
@@ -1706,6 +1749,18 @@ fn oracle_c06(plan: &ResolvePlan, obs: &Observations) -> RunResult {
             }
         }
         if let Ok(ResolvedRecord::NonAuthoritative { rrs, soa_rr }) = &q.result {
+            // "the CNAME records on that path": of two aliases with one owner
+            // only the one that was followed is on the path
+            if !matches!(
+                q.question.qtype,
+                QueryType::Wildcard | QueryType::Record(RecordType::CNAME)
+            ) {
+                if let Some(why) = alias_linkage_error(&q.question.name.to_dotted_string(), rrs) {
+                    res.violations.push(Violation::new("c06.alias_not_on_the_followed_path").detail(json!({
+                        "why": why, "q": qfacts(q), "exchanges": exchange_summary(obs, q)
+                    })));
+                }
+            }
             for r in rrs {
                 if !justified(r) {
                     res.violations.push(
@@ -1760,7 +1815,7 @@ resolve_property!(
     oracle_c06,
     60_000,
     1_000_000,
-    "first a deterministic sweep - each of 23 poison kinds (unrelated owner / off-path alias / alias fan / SOA / wrong type / duplicate in the answer section; NS for a non-ancestor, a shallower or same-depth ancestor, a foreign owner, extra SOA in authority; glue for unnamed hosts and unrelated records in additional; eight kinds of reply that must be discarded whole - wrong ID, QR clear, opcode, question, TC, rcode refused / reserved (6..15) / formerr-servfail-notimp - carrying tagged records) at each of 6 exchange positions of 8 universes (1104 runs) - then random mixtures at random rates. Poison records are uniquely tagged. After every question every cache entry (snapshot hook) and every returned record must be justified by an acceptable reply under rules R0-R4 (DESIGN 4.3), with the delegation depth in use taken from the H5 trace. Non-trivial = poison delivered in an acceptable reply or tagged records in a discarded one; distinct = distinct (exchange sequence, faults, result classes)",
+    "first a deterministic sweep - each of 24 poison kinds (unrelated owner / off-path alias / alias fan / SOA / wrong type / duplicate in the answer section; NS for a non-ancestor, a shallower or same-depth ancestor, a foreign owner, extra SOA in authority; glue for unnamed hosts and unrelated records in additional; eight kinds of reply that must be discarded whole - wrong ID, QR clear, opcode, question, TC, rcode refused / reserved (6..15) / formerr-servfail-notimp - carrying tagged records) at each of 6 exchange positions of 8 universes (1152 runs) - then random mixtures at random rates. Poison records are uniquely tagged. After every question every cache entry (snapshot hook) and every returned record must be justified by an acceptable reply under rules R0-R4 (DESIGN 4.3), with the delegation depth in use taken from the H5 trace. Non-trivial = poison delivered in an acceptable reply or tagged records in a discarded one; distinct = distinct (exchange sequence, faults, result classes)",
     [
         "the justification rule is the property's sentence, section-agnostic; the code may be stricter",
         "a record of the asked type at any name on the alias path counts as justified (lenient on purpose)",
